@@ -150,7 +150,9 @@ impl<T: Read + Seek, S: ReadableShape> Iterator for ShapeIterator<'_, T, S> {
     type Item = Result<S, crate::Error>;
 
     fn next(&mut self) -> Option<Self::Item> {
-        if self.current_pos >= self.file_length {
+        // With an index, the index alone tells where the records are and when they end
+        // (they may be stored in any order); without, the length declared in the header does.
+        if self.shapes_indices.is_none() && self.current_pos >= self.file_length {
             None
         } else {
             if let Some(ref mut shapes_indices) = self.shapes_indices {
